@@ -16,7 +16,7 @@ let rec int_of_pos = function
 let int_of_n = function Model.N0 -> 0 | Model.Npos p -> int_of_pos p
 
 let byte_tab : Model.byte array =
-  Array.init 256 (fun i -> match Model.of_N (n_of_int i) with Some b -> b | None -> assert false)
+  Array.init 256 (fun i -> match Model.byte_of_N (n_of_int i) with Some b -> b | None -> assert false)
 
 let bytes_of_string (s : string) : Model.byte list =
   let r = ref [] in
@@ -25,7 +25,7 @@ let bytes_of_string (s : string) : Model.byte list =
 
 let string_of_bytes (l : Model.byte list) : string =
   let b = Buffer.create 256 in
-  List.iter (fun x -> Buffer.add_char b (Char.chr (int_of_n (Model.to_N x)))) l;
+  List.iter (fun x -> Buffer.add_char b (Char.chr (int_of_n (Model.byte_to_N x)))) l;
   Buffer.contents b
 
 let () =
